@@ -208,6 +208,15 @@ class LinearOperator(Operator):
         self._adj = jax.jit(self._adj)
         self._gram = jax.jit(self._gram)
 
+    def _to_output_space(self, y):
+        """Map `y` into the output space of this operator (used by the adjoints of
+        scalar multiples: the scalar is applied before the adjoint so that a complex
+        multiple of an operator with a real output space has the correct adjoint in
+        the real inner product)."""
+        if not is_complex_dtype(self.output_dtype) and snp.iscomplexobj(y):
+            y = y.real
+        return y.astype(self.output_dtype)
+
     @_wrap_add_sub
     def __add__(self, other):
         return LinearOperator(
@@ -236,7 +245,7 @@ class LinearOperator(Operator):
             input_shape=self.input_shape,
             output_shape=self.output_shape,
             eval_fn=lambda x: other * self(x),
-            adj_fn=lambda x: snp.conj(other) * self.adj(x),
+            adj_fn=lambda x: self.adj(self._to_output_space(snp.conj(other) * x)),
             input_dtype=self.input_dtype,
             output_dtype=result_type(self.output_dtype, other),
         )
@@ -251,7 +260,7 @@ class LinearOperator(Operator):
             input_shape=self.input_shape,
             output_shape=self.output_shape,
             eval_fn=lambda x: self(x) / other,
-            adj_fn=lambda x: self.adj(x) / snp.conj(other),
+            adj_fn=lambda x: self.adj(self._to_output_space(x / snp.conj(other))),
             input_dtype=self.input_dtype,
             output_dtype=result_type(self.output_dtype, other),
         )
